@@ -123,6 +123,8 @@ def rule_bc(ctx, R):
             ctx.ob("C12-b", "Metadata.lambda is the quantile's Ok payload", tt is t, fn, "metadata-lambda", where=pat.where(st),
                    detail="Metadata.lambda root %r" % (rr,))
     if not md:
+        from ..roles import want, builds_adt
+        want(builds_adt("Metadata", "TropicalSampleResult"))
         ctx.lost("C12-b", "Metadata aggregate in sample", fn)
     ok, why = common.err_never_reaches_ok(s, v, bi)
     ctx.ob("C12-c", "Err of inverse_gamma_lr never reaches Ok(sample)", ok, fn, "quantile-err-discipline", where=pat.where(t), detail=why)
